@@ -177,6 +177,30 @@ def fieldSupported (O : Oracles) (tm : TypeMap) (future : Bool) (fs : FieldSp) :
       | .eq v _ => scalarDefault v && fs.mode == .ann
       | .kw v _ => scalarDefault v && kwAllowed fs.ty && (truthy v || defaultOk O (denote fs.ty) v))
 
+/-- the expression only uses documented forms: `items=` is given fields, `None` only appears as the
+    second alternative of `Union` / `AnyOf` / `|` -/
+def documentedSp : Sp → Bool
+  | .builtin _ | .fcls _ | .finst _ | .lit _ _ => true
+  | .noneLit => false
+  | .bareBuiltin _ | .bareTyping _ | .bareCls _ | .bareInst _ => true
+  | .pep585 _ x | .typingG _ x | .sub _ x => documentedSp x
+  | .call _ x => documentedSp x && isFieldExpr x
+  | .dictBare | .tDictBare | .mapBare | .mapInst => true
+  | .dict585 k v | .dictTyping k v | .mapSub k v => documentedSp k && documentedSp v
+  | .mapCall k v => documentedSp k && documentedSp v && isFieldExpr k && isFieldExpr v
+  | .optional x => documentedSp x
+  | .union x y | .anyOf x y | .pipe x y => documentedSp x && (isNoneLit y || documentedSp y)
+
+/-- the domain of the statement at field level: documented forms, an assignment declares a field
+    expression, `default=` sits in a call of a Field class, defaults are scalar literals -/
+def documentedField (fs : FieldSp) : Bool :=
+  documentedSp fs.ty
+  && (match fs.mode with | .ann => true | .assign => isFieldExpr fs.ty)
+  && (match fs.dflt with
+      | .none => true
+      | .eq v _ => scalarDefault v && fs.mode == .ann
+      | .kw v _ => scalarDefault v && kwAllowed fs.ty)
+
 /-- two class bodies declaring the same fields, each in any of its spellings -/
 inductive ClassSame : List FieldSp → List FieldSp → Prop where
   | nil : ClassSame [] []
